@@ -429,6 +429,9 @@ def ownVal (vals : List (Cid × Val)) (c : Cid) : Val := (get vals c).getD []
 def readCid (s : MState) (D : DSet) (c : Cid) : Option Val :=
   evalC D.comps (ownVal s.vals) applyFn D.cache.via (D.fuel + 1) c
 
+/-- `data.get_mask(cid > thr)`: elementwise on what the dataset reads; `none` = IncompatibleAttribute. -/
+def selectGt (thr : Int) (v : Option Val) : Option (List Bool) := v.map (·.map (fun x => decide (x > thr)))
+
 /-- `cid in data.externally_derivable_components` (keys of the installed dict). -/
 def isDerivable (D : DSet) (c : Cid) : Bool := (get D.cache.via c).isSome
 
